@@ -10,6 +10,7 @@ import (
 	"os"
 	"runtime"
 	"sync"
+	"sync/atomic"
 	"time"
 )
 
@@ -70,6 +71,32 @@ func MemGuard(w *W, limit uint64, what func() Ev) {
 				w.Emit(e)
 				w.Close()
 				fmt.Fprintf(os.Stderr, "vharness: memory guard: heap %d MB exceeds %d MB, stopping\n", ms.HeapAlloc>>20, limit>>20)
+				os.Exit(0)
+			}
+		}
+	}()
+}
+
+// StallGuard watches a driver whose subject may deadlock (the Go runtime would end the process with "all
+// goroutines are asleep", or the driver would hang until the check's time-out: no verdict either way): when
+// Beat has not been called for d, the guard writes a final event {"op": "stall", "after": <last Beat's note>},
+// closes the trace and ends the process with status 0; the check reports the stall itself.
+var beat atomic.Value
+
+func Beat(note string) { beat.Store([2]interface{}{time.Now(), note}) }
+
+func StallGuard(w *W, d time.Duration) {
+	Beat("start")
+	go func() {
+		for {
+			time.Sleep(500 * time.Millisecond)
+			b := beat.Load().([2]interface{})
+			if time.Since(b[0].(time.Time)) > d {
+				buf := make([]byte, 1<<16)
+				buf = buf[:runtime.Stack(buf, true)]
+				w.Emit(Ev{"op": "stall", "after": b[1], "seconds": int(d.Seconds()), "stacks": string(buf)})
+				w.Close()
+				fmt.Fprintf(os.Stderr, "vharness: stall guard: no progress for %v after %v, stopping\n", d, b[1])
 				os.Exit(0)
 			}
 		}
